@@ -23,9 +23,10 @@ def replay_e1(case):
     u = forest.rebuild(kind, n, witness)
     pre = u.state()
     judge = case.get("judge") or pid.lower()
+    re = case.get("reenter")
     ex = forest.execute(kind, n, witness, op, pre, raise_at=tuple(case.get("raise_at") or ()),
                         persist=_tup(case["persistent"]) if case.get("persistent") else None,
-                        snap=(judge == "c16"))
+                        snap=(judge == "c16"), reenter={re[1]: _tup(re[2:])} if re else None)
     t = core.Tally()
     extra = {"known": core.load_known_findings(pid)}
     jf = e1run.JUDGES.get(judge)
